@@ -130,7 +130,15 @@ impl Stream for RandomModules
 	fn run(&self, _idx: u64, c: &mut Choices, ctx: &RunCtx) -> CaseOut
 	{
 		let mut out = CaseOut::default();
-		let decls = syngen::Syn::new(c).module(12);
+		let mut decls = syngen::Syn::new(c).module(12);
+		// an import can be public too (it is then part of the header)
+		for d in decls.iter_mut()
+		{
+			if d.is_import && c.flag()
+			{
+				d.public = true;
+			}
+		}
 		judge(&decls, &mut out, ctx.want_sample);
 		out
 	}
@@ -217,6 +225,74 @@ impl Stream for ExhaustiveMasks
 	}
 }
 
+/// private zones of tens of thousands of parse nodes in front of public
+/// declarations (the header renumbers every node reference by the number of
+/// nodes skipped before it)
+struct LargePrivateZones;
+const ZONE_TERMS: &[usize] = &[4000, 15_000, 16_300, 16_400, 17_000, 24_000, 33_000, 50_000];
+impl Stream for LargePrivateZones
+{
+	fn name(&self) -> String
+	{
+		"large-private-zones".into()
+	}
+	fn count(&self, _tier: Tier) -> u64
+	{
+		(ZONE_TERMS.len() * 10 * 2) as u64
+	}
+	fn exhaustive(&self) -> bool
+	{
+		true
+	}
+	fn run(&self, idx: u64, _c: &mut Choices, ctx: &RunCtx) -> CaseOut
+	{
+		let mut out = CaseOut::default();
+		let terms = ZONE_TERMS[(idx as usize / 20) % ZONE_TERMS.len()];
+		let rotation = (idx as usize / 2) % 10;
+		let split_zone = idx % 2 == 1;
+		// (a long body of short statements: statement lists are dumped
+		// iteratively, whereas one long expression chain overflows the stack
+		// of the XML dump - recorded under C15)
+		let chain = |n: usize, name: &str| DeclParts {
+			public: false,
+			external: false,
+			head: format!("fn {}(a: i32)", name.to_lowercase()),
+			body: Some(format!("{{\n\tvar x: i32 = a;\n{}}}", "\tx = a + a * x;\n".repeat(n / 2))),
+			is_function: true,
+			is_import: false,
+			has_struct: false,
+			has_builtin: false,
+		};
+		let mut p = pool();
+		p.rotate_left(rotation);
+		let mut decls: Vec<DeclParts> = Vec::new();
+		if split_zone
+		{
+			// two private zones with a public declaration between them
+			decls.push(chain(terms / 2, "CONST_P1"));
+			let mut d = p[0].clone();
+			d.public = true;
+			decls.push(d);
+			decls.push(chain(terms - terms / 2, "CONST_P2"));
+		}
+		else
+		{
+			decls.push(chain(terms, "CONST_P1"));
+		}
+		for d in p.iter().skip(1).take(4)
+		{
+			let mut d = d.clone();
+			d.public = true;
+			decls.push(d);
+		}
+		judge(&decls, &mut out, ctx.want_sample && terms <= 4000);
+		out.key = idx;
+		out.nontrivial = true;
+		out.class(format!("private-chain-terms:{}", terms));
+		out
+	}
+}
+
 impl Check for C17
 {
 	fn id(&self) -> &'static str
@@ -225,7 +301,7 @@ impl Check for C17
 	}
 	fn rule(&self) -> String
 	{
-		"(a) every pub/private mask over the first n = 1..8 (quick) / 1..10 (thorough) declarations of every rotation of a fixed pool of 10 declaration shapes (function with a 120-statement body, empty function, extern function head, constants, struct with a pointer to itself, word, opaque struct, function with pointer parameters) — exhaustive; (b) grammar-generated modules of 1-12 declarations of every kind with random pub/extern flags. Oracle: H = parse(M).build_header(); M' = the pub declarations of M in order, `pub` removed, bodies replaced by `;`, printed and parsed by the same parser; canon(H.as_xml) == canon(parse(M').as_xml); H.num_declarations == number of pub declarations; the unique name of every private declaration is absent from H's dump. Non-trivial: a private zone between two public declarations, or a public function with a non-empty body; distinct by (mask, rotation) / source.".into()
+		"(a) every pub/private mask over the first n = 1..8 (quick) / 1..10 (thorough) declarations of every rotation of a fixed pool of 10 declaration shapes (function with a 120-statement body, empty function, extern function head, constants, struct with a pointer to itself, word, opaque struct, function with pointer parameters) — exhaustive; (b) grammar-generated modules of 1-12 declarations of every kind with random pub/extern flags (imports public or not); (c) a private function whose body has 2 000 - 25 000 statements (16 000 - 200 000 parse nodes, around and beyond 2^16), in one piece or split around a public declaration, followed by four public declarations of the pool - 160 modules. Oracle: H = parse(M).build_header(); M' = the pub declarations of M in order, `pub` removed, bodies replaced by `;`, printed and parsed by the same parser; canon(H.as_xml) == canon(parse(M').as_xml); H.num_declarations == number of pub declarations; the unique name of every private declaration is absent from H's dump. Non-trivial: a private zone between two public declarations, or a public function with a non-empty body; distinct by (mask, rotation) / source.".into()
 	}
 	fn assumptions(&self) -> Vec<String>
 	{
@@ -236,6 +312,6 @@ impl Check for C17
 	}
 	fn streams(&self) -> Vec<Box<dyn Stream>>
 	{
-		vec![Box::new(ExhaustiveMasks), Box::new(RandomModules)]
+		vec![Box::new(ExhaustiveMasks), Box::new(RandomModules), Box::new(LargePrivateZones)]
 	}
 }
